@@ -352,6 +352,8 @@ class ClockDevice {
   bool nontrivial() const { return opts.armC13 ? sawCarryGap : sawFailThenSuccess; }
 };
 
+// Exhaustive (start phase x single poll gap) sweep for C13, thorough tier supplement.
+int sweepClockKeep(uint32_t phaseFrom, uint32_t phaseCount);
 Trace genClockKeep(uint64_t seed);
 Trace genClockSync(uint64_t seed);
 
